@@ -13,6 +13,7 @@ RULE = ('Every accepted generated text (typed expressions/predicates with every 
         'str(), re-parsed with the same entry point and compared: ==, hash, snapshot, second print; the corpus is '
         'grouped by printed text to detect two different ASTs with one text. Non-trivial = AST with >= 1 operator, '
         'call, quantifier or >= 2 events; distinct = distinct shape signature.')
+RULE_ADDED = ' Since the seeding rounds: constant predicates, signed constants, overflowing and non-canonical number spellings (also as indices), x[i][j] chains (every chain round-tripped), own-alias-only constructs, human-written corpus.'
 ASSUMPTIONS = [
     'a predicate is re-parsed with the predicate parser (its printed form carries braces), everything else with '
     'the entry point that produced it',
